@@ -119,6 +119,15 @@ def real_sel(costs):
         if pop:
             if strictly_better(d, min(pop, key=lambda a: a.cost) if d == TaskType.MIN else max(pop, key=lambda a: a.cost), H.best_agent(pop, d)):
                 problems.append(f"best_agent({d}) is not optimal")
+            # the single-index variants designate an agent with the cost of the best / worst agent
+            for fn_, extreme in ((H.best_agent_index, (min if d == TaskType.MIN else max)), (H.worst_agent_index, (max if d == TaskType.MIN else min))):
+                try:
+                    i_ = int(fn_(pop, d))
+                    if not (0 <= i_ < len(pop)) or pop[i_].cost != extreme(a.cost for a in pop):
+                        problems.append(f"{fn_.__name__}({d}) = {i_}: that agent's cost is {pop[i_].cost if 0 <= i_ < len(pop) else None}, not {extreme(a.cost for a in pop)}")
+                except Exception as ex_:
+                    problems.append(f"{fn_.__name__}({d}) raises {type(ex_).__name__} on a non-empty population")
+                guard(fn_.__name__)
         n_ = len(pop)
         for nb, nw in ((1, 1), (None, n_), (0, 0), (n_, None), (1, 0), (0, 1), (n_, 0), (None, 0), (0, None)):
             try:
